@@ -31,7 +31,7 @@ func init() {
 	register(&Prop{
 		ID:       "C17",
 		Category: "model_checking",
-		Rule: "(a) scenarios of 3 threads (real goroutines under a hand-off scheduler) x 3 operations each on DISTINCT instances chosen to touch the same package-level tables (fixed-Huffman and dynamic decodes, level-1 / level-2 / Huffman-only compression, 4 KiB window, gzip, zlib with dictionary): ALL interleavings of the operations (1680 per scenario) at every acceleration level; oracle: every instance's bytes and errors equal its solo run; " +
+		Rule: "(a) scenarios of 3 threads (real goroutines under a hand-off scheduler) x 3 operations each on DISTINCT instances chosen to touch the same package-level tables (fixed-Huffman and dynamic decodes, level-1 / level-2 / Huffman-only compression, 4 KiB window, gzip, zlib with dictionary, a Writer closed, Reset and reused next to Writers constructed after its Close): ALL interleavings of the operations (1680 per scenario) at every acceleration level; oracle: every instance's bytes and errors equal its solo run; " +
 			"(b) global-state invariant in every explored state: a snapshot over EVERY package-level variable of the six fastgo packages (registration code generated from /repo's current sources with go/parser, injected with go build -overlay) is unchanged since initialisation (the baseline is taken after one solo warm-up run of every instance, so tables built lazily on first use do not count); " +
 			"(c) complement, sampling not enumeration: the same bodies free-running under the race detector, 16 goroutines x rounds x GOMAXPROCS {1,2,16}; non-trivial = every execution (each has 9 operations on 3 instances)",
 		Assumptions: []string{"scheduling points are the API calls: fastgo has no locks, channels or atomics, so interleavings inside a call are covered only by the global-state invariant and the sampled race pass",
@@ -81,6 +81,45 @@ func c17Writer(k WK, p1, p2 []byte) *c17inst {
 	}
 	in.digest = func() string {
 		return fmt.Sprintf("%d:%016x:%s", len(sink.Buf), introspect.Bytes2(sink.Buf), strings.Join(errs, ","))
+	}
+	return in
+}
+
+// c17ReusedWriter: op0 = construct, Write, Close; op1 = Reset onto a new sink, Write; op2 = Write, Close.
+func c17ReusedWriter(k WK, p1, p2, p3 []byte) *c17inst {
+	s1, s2 := &env.Sink{}, &env.Sink{}
+	var w WC
+	var errs []string
+	in := &c17inst{name: "Wreused:" + k.String()}
+	note := func(err error) { errs = append(errs, nilness(err)) }
+	in.ops = []func(){
+		func() {
+			var err error
+			w, err = k.Fast(s1)
+			note(err)
+			if err == nil {
+				_, err = w.Write(p1)
+				note(err)
+				note(w.Close())
+			}
+		},
+		func() {
+			if w != nil {
+				w.Reset(s2)
+				_, err := w.Write(p2)
+				note(err)
+			}
+		},
+		func() {
+			if w != nil {
+				_, err := w.Write(p3)
+				note(err)
+				note(w.Close())
+			}
+		},
+	}
+	in.digest = func() string {
+		return fmt.Sprintf("%d:%016x:%d:%016x:%s", len(s1.Buf), introspect.Bytes2(s1.Buf), len(s2.Buf), introspect.Bytes2(s2.Buf), strings.Join(errs, ","))
 	}
 	return in
 }
@@ -156,12 +195,17 @@ func c17Scenario(id int, d *c17data) []*c17inst {
 		return []*c17inst{c17Writer(WK{Kind: "flate", Level: 1}, d.text70, d.r370[:30000]), c17Writer(WK{Kind: "flate", Level: -2}, d.r370, d.text70[:5000]), c17Writer(WK{Kind: "gzip", Level: 2}, d.rand66, d.text70[:70000])}
 	case 2:
 		return []*c17inst{c17Writer(WK{Kind: "flate4k", Level: 2}, d.text70[:20000], d.r370[:20000]), c17Reader(RK{Kind: "zlib", Dict: dict20}, "dict", d.zdict), c17Reader(RK{Kind: "gzip", Multi: true}, "two-members", d.gz2)}
-	default:
+	case 3:
 		return []*c17inst{c17Writer(WK{Kind: "flate", Level: 1}, d.text70, d.text70[:10000]), c17Writer(WK{Kind: "flate", Level: 1}, d.r370, d.r370[:10000]), c17Reader(RK{Kind: "flate"}, "std70", d.std70)}
+	default:
+		// a Writer that is closed, Reset and used again next to Writers constructed after its Close (resources handed
+		// back at Close must not be shared with the Writers that pick them up)
+		return []*c17inst{c17ReusedWriter(WK{Kind: "flate", Level: 1}, d.text70[:20000], d.r370[:40000], d.text70[20000:50000]),
+			c17Writer(WK{Kind: "flate", Level: 2}, d.r370[:30000], d.text70[:30000]), c17Writer(WK{Kind: "gzip", Level: 1}, d.text70[:30000], d.r370[:30000])}
 	}
 }
 
-const c17Scenarios = 4
+const c17Scenarios = 5
 
 func snapDiff(a, b map[string]uint64) string {
 	var out []string
